@@ -329,7 +329,7 @@ decls! {
     gen = |r| gen_int(r, -4, 100, isize::MIN as i128, isize::MAX as i128) as isize;
     corpus = vec![-5, -4, -6, isize::MIN, isize::MAX];
 
-    #[nutype(sanitize(with = |x: i16| x.clamp(-10, 10)), validate(greater_or_equal = -10, less_or_equal = 10), derive(Debug, Clone, Serialize, Deserialize))]
+    #[nutype(sanitize(with = |x: i16| x.clamp(-10, 10)), validate(greater_or_equal = -10, less_or_equal = 10), derive(Debug, Clone, Copy, PartialEq, Eq, PartialOrd, Ord, Hash, Display, FromStr, TryFrom, Into, AsRef, Deref, Borrow, Serialize, Deserialize))]
     struct ClampLeI16(i16);
     family = "integer"; validated = true; core = false;
     gen = |r| gen_int(r, -10, 10, -32768, 32767) as i16;
@@ -384,7 +384,7 @@ decls! {
     gen = |r| if r.chance(1, 2) { gen_f64(r, -8.0, 8.0).round() } else { gen_f64(r, -8.0, 8.0) };
     corpus = vec![0.0, -0.0, 1.0, 1.5, 9007199254740992.0, f64::NAN, f64::INFINITY];
 
-    #[nutype(sanitize(with = |x: f32| x.clamp(-1.0, 1.0)), validate(greater_or_equal = -1.0, less_or_equal = 1.0), derive(Debug, Clone, Serialize, Deserialize))]
+    #[nutype(sanitize(with = |x: f32| x.clamp(-1.0, 1.0)), validate(greater_or_equal = -1.0, less_or_equal = 1.0), derive(Debug, Clone, Copy, PartialEq, PartialOrd, Display, FromStr, TryFrom, Into, AsRef, Deref, Borrow, Serialize, Deserialize))]
     struct ClampLeF32(f32);
     family = "float"; validated = true; core = false;
     gen = |r| gen_f32(r, -1.0, 1.0);
@@ -540,6 +540,19 @@ decls! {
     family = "integer"; validated = true; core = false;
     gen = |r| gen_int(r, -5, 1005, i16::MIN as i128, i16::MAX as i128) as i16;
     corpus = vec![-1, 0, 999, 1000, i16::MAX, i16::MIN];
+
+    // iterable inner types that do NOT serialize as a plain sequence, deriving IntoIterator as well
+    #[nutype(validate(predicate = |m| m.len() <= 3), derive(Debug, Clone, PartialEq, Serialize, Deserialize, IntoIterator))]
+    struct Scores(std::collections::BTreeMap<String, u32>);
+    family = "other"; validated = true; core = false;
+    gen = |r| (0..r.below(5)).map(|i| (format!("k{}{}", i, gen_string(r, 2)), r.below(1000) as u32)).collect();
+    corpus = vec![std::collections::BTreeMap::new(), [(s("a"), 1u32)].into_iter().collect(), [(s("a"), 1u32), (s("b"), 2), (s("c"), 3), (s("d"), 4)].into_iter().collect()];
+
+    #[nutype(validate(predicate = |o| o.map_or(true, |x| x % 2 == 0)), derive(Debug, Clone, Copy, PartialEq, Serialize, Deserialize, IntoIterator))]
+    struct MaybeEven(Option<u8>);
+    family = "other"; validated = true; core = false;
+    gen = |r| if r.chance(1, 4) { None } else { Some(r.below(256) as u8) };
+    corpus = vec![None, Some(0), Some(1), Some(254)];
 
     // fixed-size arrays as inner type (serde writes arrays as TUPLES, slices as sequences; RON tells
     // them apart)
